@@ -250,6 +250,22 @@ def standard(chk, scopes, inv, clauses, what, extra_sources=(), sources=(), skip
     res = explore(chk, 'strings', scopes, userskip=skip, invariants=inv, timeout=timeout, sources=sources, runs=runs)
     model_must_hold(chk, res)
     bad = replay(chk, res.records, skip)
+    # every disagreement is repeated in a fresh interpreter: behaviour that depends on what was parsed before shows there
+    os.makedirs(os.path.join(tlc.BUILD), exist_ok=True)
+    fresh = []
+    by_len = sorted(bad, key=lambda b: len(b['i']))
+    pick = by_len[:30] + bad[::max(1, len(bad) // 30)][:30] + [b for b in by_len if 'command' in ''.join(b['i']) or '\\def' in ''.join(b['i'])][:40]
+    seen_fresh = set()
+    for b in pick:
+        key = ''.join(b['i'])
+        if key in seen_fresh:
+            continue
+        seen_fresh.add(key)
+        f = obs.fresh_experiment(from_atoms(b['i']), skip)
+        if f is not None:
+            fresh.append(f)
+    chk.count('disagreements_repeated_in_fresh_interpreter', len(fresh))
+    bad = fresh + bad
     for r in res.records[:samples]:
         chk.sample({'source': from_atoms(r['i']), 'strict': r['A']['o'], 'strict_out': from_atoms(r['A']['out']),
                     'tolerant': r['B']['o'], 'tolerant_out': from_atoms(r['B']['out'])})
